@@ -520,7 +520,7 @@ class Cycles(FetchStream):
         n = 1400 if tier == "quick" else 6500
         for i in range(n):
             r = rng.random()
-            c = gen_case2(rng, floats=(i % 10 == 9), variables=(False if r < 0.95 else None), dup=(r < 0.30),
+            c = gen_case2(rng, floats=(i % 10 == 9), variables=(False if r < 0.85 else None), dup=(r < 0.30),
                           max_sources=3, profile="shape")
             c["k"] = rng.randint(1, 4)
             yield c
@@ -577,6 +577,11 @@ CORPUS = [
     # findings C07-reserved-shell / C07-choice-delimiter (counterexamples of Proofs/FetchDomain.v): the printed result does not parse
     _c("!__a.b__.c = 1\n", [], 1),
     _c("c = *# b\n  .type = choice\n", ["c = b\n"], 1),
+    # an escaped dollar next to a substituted reference: the backslash stays in W, so fetching W again leaves it alone
+    _c("root = /data\ncmd = x\n", ["root = /d\ncmd = \"$root/run --out \\$root/out\"\n"], 2),
+    _c("a = 1\nb = x\n", ["b = pre\\$a$(a)\n", "b = \"\\$5 and $a\"\n"], 2),
+    # a backslash directly in front of a line break inside a value: printed escaped, so saving and re-loading keeps it
+    _c("s = None\n  .type = str\nt = a\n", ["s = \"tar -x \\\\\n  -f data.tar\"\nt = 'p\\\\\nq' \"r\\\\\"\n"], 3),
     # deprecated: outside the domain (hidden in the printed text by design)
     _c("a = 1\n  .deprecated = True\nb = 2\n", ["a = 3\n"], 1),
 ]
